@@ -347,11 +347,16 @@ impl LspContext {
     }
 }
 
-/// The path a document is known by. A document that does not live on the file system (e.g. `untitled:Untitled-1`)
-/// is known by the path component of its URI: it can be edited and queried, but it is not part of any project.
+/// The path a document is known by. A document that does not live on the local file system (e.g. `untitled:Untitled-1`,
+/// `untitled:/project/main.asm`, `file://otherhost/project/main.asm`) is known by its whole URI, which cannot coincide
+/// with the path of a file: it can be edited and queried, but it is not part of any project.
 pub fn uri_to_path(uri: &Url) -> PathBuf {
-    uri.to_file_path()
-        .unwrap_or_else(|_| PathBuf::from(uri.path()))
+    let local_file = if uri.scheme() == "file" {
+        uri.to_file_path().ok()
+    } else {
+        None
+    };
+    local_file.unwrap_or_else(|| PathBuf::from(uri.as_str()))
 }
 
 pub struct LspServer {
